@@ -6984,3 +6984,19 @@ mod tests {
         );
     }
 }
+
+/// Forwarding wrappers over this module's private validation kernels.
+///
+/// Compiled only with the `verif-hooks` cargo feature; used by external
+/// verification harnesses.
+#[cfg(feature = "verif-hooks")]
+#[doc(hidden)]
+#[allow(missing_docs, clippy::must_use_candidate)]
+pub mod verif_hooks_tds {
+    pub fn permutation_is_odd<Id: PartialEq>(
+        source_order: &[Id],
+        target_order: &[Id],
+    ) -> Option<bool> {
+        super::Tds::<f64, (), (), 2>::permutation_is_odd(source_order, target_order)
+    }
+}
